@@ -28,6 +28,9 @@ var (
 
 	// ErrCapacity is returned when capacity is error.
 	ErrCapacity = errors.New("capacity error")
+
+	// ErrRWMode is returned when the read and write mode is neither FileIO nor MMap.
+	ErrRWMode = errors.New("rwMode error")
 )
 
 const (
@@ -53,6 +56,10 @@ func NewDataFile(path string, capacity int64, rwMode RWMode) (df *DataFile, err 
 
 	if capacity <= 0 {
 		return nil, ErrCapacity
+	}
+
+	if rwMode != FileIO && rwMode != MMap {
+		return nil, ErrRWMode
 	}
 
 	if rwMode == FileIO {
